@@ -512,7 +512,35 @@ def translate(repo="/repo"):
                 if ":" in txt:
                     fields.append(txt.split(":", 1)[1])
             structs.append((items[k + 1].text, fields))
-    return dict(thread_state=sorted(set(thread_state)), shared_mut=sorted(set(shared_mut)), fns=out_fns, unknown=sorted(unknown), notes=notes, managed_ok=managed_ok, detach_drop_ok=detach_drop_ok,
+    # fields of the unsafe-Send/Sync types, followed through the structs of both files: anything with a non-atomic shared
+    # count or interior mutability makes `unsafe impl Send / Sync` unsound whatever the methods do
+    NOT_SENDABLE = {"Rc", "Weak", "Cell", "RefCell", "UnsafeCell", "OnceCell", "LazyCell"}
+    all_structs = dict(structs)
+    pits = pt.items
+    for k, x in enumerate(pits):
+        if is_tok(x, "struct") and k + 1 < len(pits) and is_tok(pits[k + 1], kind="ident"):
+            j = k + 2
+            while j < len(pits) and not isinstance(pits[j], Group) and not is_tok(pits[j], ";"):
+                j += 1
+            if j < len(pits) and isinstance(pits[j], Group):
+                all_structs[pits[k + 1].text] = [flat_text(pits[j].items).replace(" ", "")]
+    def field_idents(name, seen):
+        out = []
+        if name in seen or name not in all_structs:
+            return out
+        seen.add(name)
+        import re as _re
+        for fty in all_structs[name]:
+            for w in _re.findall(r"[A-Za-z_][A-Za-z0-9_]*", fty):
+                out.append(w)
+                out += field_idents(w, seen)
+        return out
+    send_sync_bad = []
+    for tr, ty in sendsync:
+        for w in field_idents(ty, set()):
+            if w in NOT_SENDABLE:
+                send_sync_bad.append((ty, w))
+    return dict(send_sync_bad=sorted(set(send_sync_bad)), thread_state=sorted(set(thread_state)), shared_mut=sorted(set(shared_mut)), fns=out_fns, unknown=sorted(unknown), notes=notes, managed_ok=managed_ok, detach_drop_ok=detach_drop_ok,
                 detach_ok=detach_ok, alias_ok=alias_ok, free_table=free_table, macro_free_ok=macro_free_ok,
                 sendsync=sorted(sendsync), structs=structs, ffi=sorted(ffi_fns))
 
@@ -559,6 +587,8 @@ def emit(repo="/repo"):
     L.append("def freeTable : List (String × String) := [%s]" % ", ".join("(%s, %s)" % (lean_str(a), lean_str(c)) for a, c in d["free_table"]))
     L.append("/-- `unsafe impl <trait> for <type>` in lc/mod.rs -/")
     L.append("def unsafeImpls : List (String × String) := [%s]" % ", ".join("(%s, %s)" % (lean_str(a), lean_str(c)) for a, c in d["sendsync"]))
+    L.append("/-- (type with an `unsafe impl Send / Sync`, offending field component): `Rc`, `Weak`, `Cell`, `RefCell`, `UnsafeCell`, … reachable through its fields -/")
+    L.append("def sendSyncFieldViolations : List (String × String) := [%s]" % ", ".join("(%s, %s)" % (lean_str(a), lean_str(c)) for a, c in d["send_sync_bad"]))
     L.append("/-- structs of lc/mod.rs with their field types -/")
     L.append("def structs : List (String × List String) := [%s]" % ", ".join("(%s, [%s])" % (lean_str(a), ", ".join(lean_str(f) for f in fs)) for a, fs in d["structs"]))
     L.append("end PM.Extracted.Ffi")
